@@ -28,6 +28,7 @@ from typing import (
 from requests import Session
 
 from .common import (
+    MAGIC_EQUALS_CHAR,
     MAGIC_FIRST,
     MAGIC_LBRACKET_CHAR,
     MAGIC_NOWIKI_CHAR,
@@ -1383,6 +1384,17 @@ class Wtp:
             # print("parent = {!r}".format(parent))
             # print("expand_recurse coded={!r}".format(coded))
 
+            def expand_call_arg(i: int, x: str, argmap: TemplateArgs) -> str:
+                # Only an "=" written in the call separates name and value;
+                # one that comes out of a parameter value is protected.
+                if i == 0:
+                    return expand_args(x, argmap)
+                name, eq, value = x.partition("=")
+                name = expand_args(name, argmap).replace(
+                    "=", MAGIC_EQUALS_CHAR
+                )
+                return name + eq + expand_args(value, argmap)
+
             def expand_args(coded: str, argmap: TemplateArgs) -> str:
                 assert isinstance(coded, str)
                 assert isinstance(argmap, dict)
@@ -1417,8 +1429,8 @@ class Wtp:
                         # Expand its arguments.
                         self.expand_stack.append("TEMPLATE_ARGS")
                         new_args = tuple(
-                            expand_args(x, argmap).removesuffix("\n")
-                            for x in args
+                            expand_call_arg(i, x, argmap).removesuffix("\n")
+                            for i, x in enumerate(args)
                         )
                         self.expand_stack.pop()
                         parts.append(self._save_value(kind, new_args, nowiki))
@@ -1508,7 +1520,9 @@ class Wtp:
                 self.expand_stack.append(fn_name)
 
                 def expander(arg: str) -> str:
-                    return expand_recurse(arg, parent, True)
+                    return expand_recurse(arg, parent, True).replace(
+                        MAGIC_EQUALS_CHAR, "="
+                    )
 
                 if fn_name in self.parser_function_aliases:
                     fn_name = self.parser_function_aliases[fn_name]
@@ -1693,7 +1707,11 @@ class Wtp:
                                 # the name is trimmed, nothing else (as
                                 # in TemplateNode.template_parameters and
                                 # in the arguments a Lua module sees)
-                                k = expand_recurse(k, parent, True).strip()
+                                k = (
+                                    expand_recurse(k, parent, True)
+                                    .replace(MAGIC_EQUALS_CHAR, "=")
+                                    .strip()
+                                )
                                 self.expand_stack.pop()
                         else:
                             k = num
@@ -1703,7 +1721,9 @@ class Wtp:
                         # calls to #invoke within a template argument (the
                         # parent frame would be different).
                         self.expand_stack.append("ARGVAL-{}".format(k))
-                        arg = expand_recurse(arg, parent, True)
+                        arg = expand_recurse(arg, parent, True).replace(
+                            MAGIC_EQUALS_CHAR, "="
+                        )
                         self.expand_stack.pop()
                         if m2:
                             # Named values are trimmed after expansion too:
@@ -1920,6 +1940,7 @@ class Wtp:
         # Convert the special <nowiki /> character back to <nowiki />.
         # This is done at the end of normal expansion.
         text = text.replace(MAGIC_NOWIKI_CHAR, "<nowiki />")
+        text = text.replace(MAGIC_EQUALS_CHAR, "=")
 
         # broken external url kludge: we don't want to have external
         # urls that are not correct, but we can't just return the
